@@ -7,7 +7,7 @@ import (
 
 // C12 mt: classes/tokens/balances created through real messages survive export -> import -> export.
 func VerifC12_MT() {
-	verifExpect("roundtrip")
+	verifExpect("roundtrip", "fully-burned")
 	e := newVEnv(types.StoreKey, 10)
 	k := keeper.NewKeeper(e.cdc, e.key)
 	owner, alice := vAddr(1), vAddr(2)
@@ -30,6 +30,16 @@ func VerifC12_MT() {
 		_, err = srv.TransferMT(e.ctx, &types.MsgTransferMT{Id: mtID, DenomId: denomID, Sender: owner.String(), Recipient: alice.String(), Amount: t})
 		verifAssume(err == nil)
 	}
+	if verifChoice("burn", 2) == 1 {
+		// the owner burns part or ALL of what they hold (a fully burned token keeps its record)
+		b := verifUint64("burn1")
+		verifAssume(b >= 1 && b <= k.GetBalance(e.ctx, denomID, mtID, owner))
+		_, err = srv.BurnMT(e.ctx, &types.MsgBurnMT{Id: mtID, DenomId: denomID, Sender: owner.String(), Amount: b})
+		verifAssume(err == nil)
+		if k.GetMTSupply(e.ctx, denomID, mtID) == 0 {
+			verifCover("fully-burned")
+		}
+	}
 	g := ExportGenesis(e.ctx, k)
 	verifAssert(types.ValidateGenesis(*g) == nil, "the exported genesis passes the module's own validation")
 	e2 := newVEnv(types.StoreKey, 10)
@@ -47,4 +57,5 @@ func VerifC12_MT() {
 	verifAssert(ok && d2.Owner == owner.String(), "class and its owner survive re-import")
 	g2 := ExportGenesis(e2.ctx, k2)
 	verifAssert(len(g2.Collections) == len(g.Collections) && len(g2.Owners) == len(g.Owners), "a second export has the same shape")
+	verifAssert(verifDeepEqual(*g2, *g), "a second export equals the first")
 }
